@@ -156,12 +156,12 @@ pub fn build_by_item_impl(attr: TokenStream, item_impl: &ItemImpl) -> Result<Tok
                     let l = ref_type_with(&this, call_l_ref);
                     let r = ref_type_with(&rhs, call_r_ref);
                     let l_expr = change_owned(quote!(self), &this, impl_l_ref, call_l_ref);
-                    let r_expr = change_owned(quote!(rhs), &rhs, impl_r_ref, call_r_ref);
+                    let r_expr = change_owned(quote!(__rhs), &rhs, impl_r_ref, call_r_ref);
                     quote! {
                         #[automatically_derived]
                         impl #impl_g #binary_trait<#impl_rhs> for #impl_this #where_g {
                             type Output = #output;
-                            fn #binary_func(self, rhs: #impl_rhs) -> Self::Output {
+                            fn #binary_func(self, __rhs: #impl_rhs) -> Self::Output {
                                 <#l as #binary_trait<#r>>::#binary_func(#l_expr, #r_expr)
                             }
                         }
@@ -174,8 +174,8 @@ pub fn build_by_item_impl(attr: TokenStream, item_impl: &ItemImpl) -> Result<Tok
                 quote! {
                     #[automatically_derived]
                     impl #impl_g #assign_trait<#rhs> for #this #where_g {
-                        fn #assign_func(&mut self, rhs: #rhs) {
-                            *self = <#l as #binary_trait<#rhs>>::#binary_func(#l_expr, rhs)
+                        fn #assign_func(&mut self, __rhs: #rhs) {
+                            *self = <#l as #binary_trait<#rhs>>::#binary_func(#l_expr, __rhs)
                         }
                     }
                 }
@@ -213,8 +213,8 @@ pub fn build_by_item_impl(attr: TokenStream, item_impl: &ItemImpl) -> Result<Tok
                     #[automatically_derived]
                     impl #impl_g #binary_trait<#rhs> for #this #where_g {
                         type Output = #this;
-                        fn #binary_func(mut self, rhs: #rhs) -> Self::Output {
-                            <#this as #assign_trait<#rhs>>::#assign_func(&mut self, rhs);
+                        fn #binary_func(mut self, __rhs: #rhs) -> Self::Output {
+                            <#this as #assign_trait<#rhs>>::#assign_func(&mut self, __rhs);
                             self
                         }
                     }
